@@ -116,9 +116,9 @@ def fields_exact : Prop :=
 def mkOpts (y m d w H Mi S nat det : Bool) : DOpts :=
   { year := y, month := m, date := d, day := w, hour := H, minute := Mi, second := S, nat := nat, det := det, rtime := .off }
 
-/-- the six date-field subsets without a format: date-day, month-day, year-day, year-date, year-date-day, year-month-day -/
+/-- the five date-field subsets without a format: month-day, year-day, year-date, year-date-day, year-month-day -/
 def dateSubsetMissing (y m d w : Bool) : Bool :=
-  [(false, false, true, true), (false, true, false, true), (true, false, false, true),
+  [(false, true, false, true), (true, false, false, true),
    (true, false, true, false), (true, false, true, true), (true, true, false, true)].contains (y, m, d, w)
 
 /-- the date cells that are right: all those that are present (same in both languages and styles) -/
@@ -503,10 +503,9 @@ def dateFormat_total : Prop :=
 /-- the date part returns: relative time, or a subset that has a format -/
 def dateGood (o : DOpts) (hasRef : Bool) : Bool := hasRef || !dateSubsetMissing o.year o.month o.date o.day
 
-/-- the time part returns: not `hour:second`; not noon / midnight wording with `det:False` -/
-def timeGood (_lang : Lang) (dt : DateTime) (o : DOpts) : Bool :=
-  !(o.hour && !o.minute && o.second) &&
-  !(!o.det && o.nat && o.hour && o.minute && o.second && dt.minute == 0 && dt.second == 0 && (dt.hour == 0 || dt.hour == 12))
+/-- the time part returns: every selection but `hour:second` (at every instant, with or without determiner) -/
+def timeGood (_lang : Lang) (_dt : DateTime) (o : DOpts) : Bool :=
+  !(o.hour && !o.minute && o.second)
 
 theorem dateFormat_total_refuted : ¬ dateFormat_total := by
   intro h
@@ -521,8 +520,7 @@ theorem total_date_tbl : ∀ (lang : Lang) (y m d w nat det : Bool),
 
 theorem total_time_tbl : ∀ (lang : Lang) (H Mi S nat det mz sz h0 h12 : Bool),
     cellOK (rulesOf lang) nat det (timeKeyC nat H Mi S mz sz h0 h12) =
-      (!(H && !Mi && S) &&
-       !(!det && nat && H && Mi && S && mz && sz && (h0 || h12))) := by
+      !(H && !Mi && S) := by
   decide +kernel
 
 /-- exact characterisation of the inputs on which `dateFormat` returns (hence: total under the weakest hypothesis) -/
@@ -541,6 +539,12 @@ theorem dateFormat_total_partial :
   cases ref with
   | none => simp only [hd, Option.isSome_none, Bool.false_or]
   | some r => simp only [Option.isSome_some, Bool.true_or]
+
+-- tests: `det:False` on the wording-only cells removes the leading word only; numeric cells keep every field
+example : (selectFmt rulesEn true false k12h).toOption = some "noon".toList ∧
+    (selectFmt rulesFr true false k0h).toOption = some "minuit".toList ∧
+    (selectFmt rulesEn true false kYear).toOption = some "[Y]".toList ∧
+    (selectFmt rulesFr false false kHM).toOption = some "[H0]:[m0]".toList := by decide +kernel
 
 -- non-vacuity: the defaults (full date and time) are good at every instant, in both languages
 example : ∀ lang dt, dateGood DOpts.default false = true ∧ timeGood lang dt DOpts.default = true := by
@@ -577,7 +581,8 @@ def source_as_modelled : Prop :=
      "dateS = relativeDate[sign].replace('[x]', str(abs(diffDays)))".toList,
      "dateS = relativeDate[str(diffDays)].replace('[l]', dateRule['text']['weekday'][(dateObj.weekday() + 1) % 7])".toList,
      "diffDays = dateObj.toordinal() - dOpts['rtime'].toordinal()".toList,
-     "fmt = fmt[fmt.index('['):]".toList,
+     "fmt = fmt[fmt.find(' ') + 1:]".toList,
+     "fmt = fmt[idx:]".toList,
      "fmt = fmts[fields]".toList,
      "fmts = dateRule['format']['natural' if dOpts['nat'] else 'non_natural']".toList,
      "return ' '.join((s for s in [dateS, timeS] if len(s) > 0))".toList,
@@ -586,7 +591,7 @@ def source_as_modelled : Prop :=
      "sign = '-' if diffDays < 0 else '+'".toList] ∧
   pyConditions =
     ["dOpts['nat']".toList, "len(fields) == 0".toList, "'det' in dOpts and (not dOpts['det'])".toList,
-     "m[1] is None".toList, "dateObj.hour < 12".toList, "isinstance(dOpts['rtime'], datetime.datetime)".toList,
+     "idx >= 0".toList, "m[1] is None".toList, "dateObj.hour < 12".toList, "isinstance(dOpts['rtime'], datetime.datetime)".toList,
      "str(diffDays) in relativeDate".toList, "diffDays < 0".toList, "dOpts['nat']".toList,
      "timeFields == 'hour:minute:second'".toList, "m == 0 and s == 0".toList, "h == 0".toList, "h == 12".toList,
      "s == 0".toList, "timeFields == 'hour:minute'".toList, "m == 0".toList] ∧
